@@ -54,7 +54,7 @@ def gen_case(rng, max_n=6):
             st["config"]["max_concurrency"] = rng.randint(1, 4)
         steps.append(st)
     return dict(kind="conf", n=n, edges=edges, attrs=attrs, tags=tags, maxc=rng.randint(1, 4), is_async=rng.random() < 0.3, steps=steps,
-                call_first=random.Random(rng.getrandbits(30)).random() < 0.5)
+                call_first=random.Random(rng.getrandbits(30)).random() < 0.5, exec_before=random.Random(rng.getrandbits(30)).random() < 0.4)
 
 
 def build(case):
@@ -92,12 +92,23 @@ class StaleTable(Exception):
     pass
 
 
+class StaleLimit(Exception):
+    pass
+
+
 def run_impl(case, tmpdir):
     d = build(case)
     obs = []
     if case.get("call_first"):
         # the DAG has already been called once before it is reconfigured
         tz.run_controlled(lambda: d(), tz.Ctl(free_run=True), is_async=case["is_async"])
+    ex_before = None
+    if case.get("exec_before"):
+        # an executor created BEFORE the reconfigurations and run after them
+        try:
+            ex_before = d.executor()
+        except BaseException:  # noqa: BLE001
+            ex_before = None
     for si, st in enumerate(case["steps"]):
         try:
             if st["how"] == "dict":
@@ -130,6 +141,11 @@ def run_impl(case, tmpdir):
         for i in range(case["n"]):
             nm = "n%d" % i
             handed += [None, 1 if c["seq"].get(nm) else 0, RES.index(c["res"][nm]) if nm in c["res"] else None]
+    if ex_before is not None and obs:
+        ctl2 = tz.Ctl(free_run=True)
+        tz.run_controlled(lambda: ex_before(), ctl2, is_async=case["is_async"])
+        if ctl2.cfgs and ctl2.cfgs[0]["maxc"] != obs[-1][1]:
+            raise StaleLimit((ctl2.cfgs[0]["maxc"], obs[-1][1]))
     return obs, handed, st
 
 
@@ -181,6 +197,11 @@ def run(pid, tier, seed, res, only=None):
         base = dict(engine="kconf", case=case)
         try:
             obs, handed, st = run_impl(case, tmpdir)
+        except StaleLimit as e:
+            h_, l_ = e.args[0]
+            for p in (("C04",) if h_ > l_ else ("C08",)):
+                res.hit(p, "monitor", "an executor created before the reconfigurations and run after them: max_concurrency is %r now, the scheduler was handed %r" % (l_, h_), dict(base, kind="monitor"))
+            continue
         except StaleTable as e:
             for p in ("C07", "C06"):
                 res.hit(p, "monitor", "after the reconfigurations%s the scheduler was handed compound priorities that differ from the DAG's table: %s (handed, DAG)" % (" (the DAG had been called once before)" if case.get("call_first") else "", dict(list(e.args[0].items())[:3])), dict(base, kind="monitor"))
